@@ -257,7 +257,13 @@ Record odiag := {
   od_file_ok : bool;                 (* the file exists and declares the entity *)
   od_nlines : N; od_len_sl : N; od_len_el : N;
   od_region : rng;
-  od_value : option (str * str) }.   (* expected value, covered text *)
+  od_value : option (str * str);     (* expected value, covered text *)
+  od_verb : option str }.            (* for a diagnostic about a @Method value: that value *)
+
+(* the rule a bad @Method value violates: `unsupported-feature` is reserved for the real HTTP verbs
+   gleece does not route yet (exact spelling), anything else is an invalid annotation value *)
+Definition verb_rule_code (v : str) : code :=
+  if smem v other_http_verbs then CFeatureUnsupported else CValueInvalid.
 
 Definition code_of_n (n : nat) : option code :=
   find (fun c => Nat.eqb (code_n c) n)
@@ -280,7 +286,13 @@ Definition prop_C18_diag (d : odiag) : nat :=
   else if negb (inside g (od_region d)) then 4
   else if match od_value d with Some (v, covered) => negb (str_eqb v covered) | None => false end then 5
   else match code_of_n (od_code d), sev_of_n (od_sev d) with
-       | Some c, Some x => if sev_documented c x then 0 else 6
+       | Some c, Some x =>
+           if sev_documented c x
+              && match od_verb d with
+                 | Some v => code_eqb c (verb_rule_code v) && negb (smem v supported_verbs)
+                 | None => true
+                 end
+           then 0 else 6
        | _, _ => 6
        end.
 
